@@ -23,15 +23,23 @@
 // TRUSTED (all visible below): 64-bit usize; a Vec of cells holds at most isize::MAX cells; Vec::shrink_to_fit keeps the contents; std::slice::Chunks as a cursor
 // (chunks / next); the contract of Range::range (external_body: its body uses chunks_mut/zip/clone_from_slice, outside
 // vstd; checked bounded by Kani harnesses range_window_*); one declared rewrite in from_sparse (map-closure loop header).
-// Bounded Kani (kani/range.rs, never counted as proved): range(), rows()/cells()/used_cells() + size_hint/next_back,
-// Index/IndexMut, a bounded twin of the set_value clauses, set_value / range on the empty range.
+// Iterators and indexing (Verus, on the real text): Range::rows / cells / used_cells, next / next_back of Rows, Cells, UsedCells,
+// Index<usize>, Index<(usize, usize)>, IndexMut<(usize, usize)> -- contracts in the words of the abstract view: an iterator "still has to
+// yield rows / cells f..b of rg" (`is_window`), each step yields row(f) / the cell at row-major position f (or b - 1 from the back).
+// Checked against stand-in traits (Index, IndexMut, Iterator, DoubleEndedIterator with a spec-only precondition member), wrapped std
+// iterators are ghost cursors (A-chunks, A-enum), four declared rewrites (enumerate / find / rfind wrappers, `&(_, v)` closure pattern).
+// Not in Verus: size_hint (not part of vstd's Iterator), IndexMut<usize>, ExactSizeIterator::len.
+// Bounded Kani (kani/range.rs, never counted as proved; kept as regression checks): range(), rows()/cells()/used_cells() +
+// size_hint/next_back, Index/IndexMut, a bounded twin of the set_value clauses, set_value / range on the empty range.
 #![feature(allocator_api)]
 #![allow(unused_imports, dead_code, unused_variables, unused_mut, unused_assignments)]
 use vstd::prelude::*;
 use std::alloc::Allocator;
 use std::slice::Chunks;
+use std::slice::Iter;
+use vstd::std_specs::cmp::PartialEqSpec;
+use std::iter::Enumerate;
 use std::cmp::{max, min};
-use std::ops::{Index, IndexMut};
 
 verus! {
 
@@ -490,6 +498,33 @@ proof fn lemma_idx(i: int, j: int, h: int, w: int)
         r == (if self.has(absolute_position.0 as int, absolute_position.1 as int) {
                 Some(&self.at(absolute_position.0 as int, absolute_position.1 as int)) } else { None }),
 //@@ end
+//@@ fn src/lib.rs Range::rows props=C05 ret=r
+//@@ sig
+    requires self.wf(),
+    ensures
+        //# C05.rows_start_with_all_rows
+        r.is_window(*self, 0, self.sh()),
+//@@ body
+        proof { self.lemma_rows_window(0, self.sh()); assert(self.buf().subrange(0, self.sh() * self.sw()) =~= self.buf()); assert(0 * self.sw() == 0); if !self.nonempty() { assert(self.buf() =~= Seq::<T>::empty()); } }
+//@@ end
+//@@ fn src/lib.rs Range::used_cells props=C05 ret=r
+//@@ sig
+    requires self.wf(),
+    ensures
+        //# C05.used_cells_start_with_all_cells
+        r.is_window(*self, 0, self.buf().len() as int) && r.winv(),
+//@@ replace /self\.inner\.iter\(\)\.enumerate\(\)/ Verus cannot attach a specification to the provided trait method Iterator::enumerate; the expression is moved verbatim into the trusted wrapper verif_iter_enumerate
+verif_iter_enumerate(&self.inner)
+//@@ end
+//@@ fn src/lib.rs Range::cells props=C05 ret=r
+//@@ sig
+    requires self.wf(),
+    ensures
+        //# C05.cells_start_with_all_cells
+        r.is_window(*self, 0, self.buf().len() as int) && r.winv(),
+//@@ replace /self\.inner\.iter\(\)\.enumerate\(\)/ Verus cannot attach a specification to the provided trait method Iterator::enumerate; the expression is moved verbatim into the trusted wrapper verif_iter_enumerate
+verif_iter_enumerate(&self.inner)
+//@@ end
 //@@ fn src/lib.rs Range::from_sparse props=C05,C06,C01,C02,C03,C08,C14 ret=r
 //@@ sig
     ensures
@@ -603,6 +638,468 @@ proof fn lemma_idx(i: int, j: int, h: int, w: int)
         *r == self.v(),
 //@@ end
 //@@ endimpl
+
+// ---- Index / IndexMut. Verus forbids `requires` on methods of a trait impl and std's Index carries none, so the impls are checked
+// against stand-ins of std::ops::{Index, IndexMut} (signatures copied) that route the documented precondition ("index out of bounds"
+// panic) through a spec-only member `index_pre`.
+pub trait Index<Idx> {
+    type Output: ?Sized;
+    spec fn index_pre(&self, index: Idx) -> bool;
+    fn index(&self, index: Idx) -> &Self::Output
+        requires self.index_pre(index);
+}
+pub trait IndexMut<Idx>: Index<Idx> {
+    fn index_mut(&mut self, index: Idx) -> &mut Self::Output
+        requires old(self).index_pre(index);
+}
+impl<T: CellType> Range<T> {
+    /// the row-major cell buffer (h * w cells; cell (i, j) at i * w + j)
+    pub closed spec fn buf(&self) -> Seq<T> { self.inner@ }
+    /// row i (relative) of the abstract view
+    pub closed spec fn row(&self, i: int) -> Seq<T> { self.inner@.subrange(i * self.w(), (i + 1) * self.w()) }
+    proof fn lemma_row(&self, i: int)
+        requires self.wf(), 0 <= i < self.sh(),
+        ensures
+            0 <= i * self.w() <= (i + 1) * self.w() <= self.inner@.len(), (i + 1) * self.w() == i * self.w() + self.w(),
+            self.row(i).len() == self.w(),
+            forall|j: int| 0 <= j < self.w() ==> self.row(i)[j] == self.at(self.start.0 + i, self.start.1 + j),
+    {
+        let w = self.w(); let h = self.h();
+        assert((i + 1) * w == i * w + w) by (nonlinear_arith);
+        assert(0 <= i * w) by (nonlinear_arith) requires 0 <= i, 0 < w;
+        assert((i + 1) * w <= h * w) by (nonlinear_arith) requires i + 1 <= h, 0 < w;
+    }
+}
+//@@ impl src/lib.rs "Index<usize> for Range<T>"
+//@@ item src/lib.rs impl_type "Index<usize> for Range<T>::type Output"
+    /// documented: indexing a row beyond the height panics (slice index out of range)
+    open spec fn index_pre(&self, index: usize) -> bool { self.wf() && index < self.sh() }
+//@@ fn src/lib.rs "Index<usize> for Range<T>::index" props=C05 ret=r
+//@@ sig
+    ensures
+        //# C05.index_row
+        r@ == self.row(index as int),
+//@@ body
+        proof { self.lemma_row(index as int); self.lemma_len_bound(); }
+//@@ end
+//@@ endimpl
+//@@ impl src/lib.rs "Index<(usize,usize)> for Range<T>"
+//@@ item src/lib.rs impl_type "Index<(usize,usize)> for Range<T>::type Output"
+    /// documented: "index out of bounds" panic unless row < height and column < width
+    open spec fn index_pre(&self, index: (usize, usize)) -> bool { self.wf() && index.0 < self.sh() && index.1 < self.sw() }
+//@@ fn src/lib.rs "Index<(usize,usize)> for Range<T>::index" props=C05 ret=r
+//@@ sig
+    ensures
+        //# C05.index_cell
+        *r == self.at(self.lo().0 + index.0, self.lo().1 + index.1),
+//@@ before /&self\.inner\[/
+        proof { lemma_idx(index.0 as int, index.1 as int, height as int, width as int); self.lemma_len_bound(); }
+//@@ end
+//@@ endimpl
+//@@ impl src/lib.rs "IndexMut<(usize,usize)> for Range<T>"
+//@@ fn src/lib.rs "IndexMut<(usize,usize)> for Range<T>::index_mut" props=C05 ret=r
+//@@ sig
+    ensures
+        //# C05.index_mut_cell
+        *r == old(self).at(old(self).lo().0 + index.0, old(self).lo().1 + index.1),
+        //# C05.index_mut_frame
+        final(self).lo() == old(self).lo() && final(self).hi() == old(self).hi()
+            && final(self).buf() == old(self).buf().update(index.0 * old(self).sw() + index.1, *final(r)),
+//@@ before /&mut self\.inner\[/
+        proof { lemma_idx(index.0 as int, index.1 as int, height as int, width as int); self.lemma_len_bound(); }
+//@@ end
+//@@ endimpl
+
+// ---- Rows: the width-sized chunks of the buffer, from both ends
+// TRUSTED (A-chunks, continued): `Chunks::next_back` yields the last chunk -- the remainder chunk if the length is not a multiple of the
+// chunk size (std: "If chunk_size does not divide the length of the slice, then the last chunk will not have length chunk_size").
+pub open spec fn last_chunk_len(len: int, size: int) -> int { if len % size == 0 { size } else { len % size } }
+pub assume_specification<'a, T>[ <Chunks<'a, T> as DoubleEndedIterator>::next_back ](c: &mut Chunks<'a, T>) -> (r: Option<&'a [T]>)
+    ensures
+        chunks_size(*final(c)) == chunks_size(*old(c)),
+        chunks_rem(*old(c)).len() == 0 ==> r is None && chunks_rem(*final(c)) == chunks_rem(*old(c)),
+        chunks_rem(*old(c)).len() > 0 ==> r is Some
+            && r.unwrap()@ == chunks_rem(*old(c)).skip(chunks_rem(*old(c)).len() - last_chunk_len(chunks_rem(*old(c)).len() as int, chunks_size(*old(c)) as int))
+            && chunks_rem(*final(c)) == chunks_rem(*old(c)).take(chunks_rem(*old(c)).len() - last_chunk_len(chunks_rem(*old(c)).len() as int, chunks_size(*old(c)) as int));
+
+#[verifier::reject_recursive_types(T)]
+//@@ item src/lib.rs struct Rows
+impl<'a, T: CellType> Rows<'a, T> {
+    /// cells not yet yielded (from either end)
+    pub closed spec fn rem(&self) -> Seq<T> { match self.inner { Some(c) => chunks_rem(c), None => Seq::empty() } }
+    /// chunk size
+    pub closed spec fn cw(&self) -> int { match self.inner { Some(c) => chunks_size(c) as int, None => 0 } }
+    /// the iterator still has to yield rows f..b (relative) of `rg`
+    pub open spec fn is_window(&self, rg: Range<T>, f: int, b: int) -> bool {
+        self.rem() == rg.buf().subrange(f * rg.sw(), b * rg.sw()) && (f < b ==> self.cw() == rg.sw())
+    }
+}
+impl<T: CellType> Range<T> {
+    proof fn lemma_rows_window(&self, f: int, b: int)
+        requires self.wf(), 0 <= f <= b <= self.sh(),
+        ensures
+            0 <= f * self.sw() <= b * self.sw() <= self.buf().len(),
+            self.buf().subrange(f * self.sw(), b * self.sw()).len() == (b - f) * self.sw(),
+            f < b ==> self.row(f) == self.buf().subrange(f * self.sw(), b * self.sw()).take(self.sw())
+                && self.buf().subrange(f * self.sw(), b * self.sw()).skip(self.sw()) == self.buf().subrange((f + 1) * self.sw(), b * self.sw())
+                && self.row(b - 1) == self.buf().subrange(f * self.sw(), b * self.sw()).skip((b - f) * self.sw() - self.sw())
+                && self.buf().subrange(f * self.sw(), b * self.sw()).take((b - f) * self.sw() - self.sw()) == self.buf().subrange(f * self.sw(), (b - 1) * self.sw())
+                && ((b - f) * self.sw()) % self.sw() == 0 && self.sw() > 0 && (b - f) * self.sw() >= self.sw(),
+    {
+        let w = self.sw();
+        assert(0 <= f * w) by (nonlinear_arith) requires 0 <= f, 0 <= w;
+        assert(f * w <= b * w) by (nonlinear_arith) requires f <= b, 0 <= w;
+        assert(b * w <= self.sh() * w) by (nonlinear_arith) requires b <= self.sh(), 0 <= w;
+        assert((b - f) * w == b * w - f * w) by (nonlinear_arith);
+        if f < b {
+            assert((f + 1) * w == f * w + w) by (nonlinear_arith);
+            assert((b - 1) * w == b * w - w) by (nonlinear_arith);
+            assert((f + 1) * w <= b * w) by (nonlinear_arith) requires f + 1 <= b, 0 <= w;
+            let win = self.buf().subrange(f * w, b * w);
+            assert(self.row(f) =~= win.take(w));
+            assert(win.skip(w) =~= self.buf().subrange((f + 1) * w, b * w));
+            assert(self.row(b - 1) =~= win.skip((b - f) * w - w));
+            assert(win.take((b - f) * w - w) =~= self.buf().subrange(f * w, (b - 1) * w));
+            vstd::arithmetic::div_mod::lemma_mod_multiples_basic(b - f, w);
+            assert((b - f) * w >= w) by (nonlinear_arith) requires b - f >= 1, w >= 0;
+        }
+    }
+}
+// ---- Cells / UsedCells: Enumerate<slice::Iter> as a ghost double-ended cursor
+// TRUSTED (A-enum): std::iter::Enumerate over a slice iterator as an abstract cursor: `en_rem` is the sequence of (index, element)
+// pairs not yet yielded; `next` pops its head, `next_back` its last element (Enumerate doc: "yields pairs (i, val), where i is the
+// current index of iteration and val is the value returned by the iterator"; for an ExactSizeIterator next_back keeps the true index).
+#[verifier::external_type_specification] #[verifier::external_body] #[verifier::reject_recursive_types(I)]
+pub struct ExEnumerate<I>(Enumerate<I>);
+pub uninterp spec fn en_rem<I: Iterator>(e: Enumerate<I>) -> Seq<(usize, I::Item)>;
+pub assume_specification<I: Iterator>[ <Enumerate<I> as Iterator>::next ](e: &mut Enumerate<I>) -> (r: Option<(usize, I::Item)>)
+    ensures
+        en_rem(*old(e)).len() == 0 ==> r is None && en_rem(*final(e)) == en_rem(*old(e)),
+        en_rem(*old(e)).len() > 0 ==> r == Some(en_rem(*old(e))[0]) && en_rem(*final(e)) == en_rem(*old(e)).skip(1);
+pub assume_specification<I: ExactSizeIterator + DoubleEndedIterator>[ <Enumerate<I> as DoubleEndedIterator>::next_back ](e: &mut Enumerate<I>) -> (r: Option<(usize, I::Item)>)
+    ensures
+        en_rem(*old(e)).len() == 0 ==> r is None && en_rem(*final(e)) == en_rem(*old(e)),
+        en_rem(*old(e)).len() > 0 ==> r == Some(en_rem(*old(e)).last()) && en_rem(*final(e)) == en_rem(*old(e)).drop_last();
+/// the pairs (k, &s[k]) for k in f..b
+pub open spec fn en_window<'a, T>(s: Seq<T>, f: int, b: int, rem: Seq<(usize, &'a T)>) -> bool {
+    rem.len() == b - f && forall|k: int| 0 <= k < b - f ==> (#[trigger] rem[k]).0 == f + k && *rem[k].1 == s[f + k]
+}
+// TRUSTED: the body is the real expression `<vec>.iter().enumerate()`, moved into a function because Verus has no
+// `assume_specification` for provided trait methods (`Iterator::enumerate`): all elements of the slice, paired with their indices.
+#[verifier::external_body]
+fn verif_iter_enumerate<'a, T>(s: &'a Vec<T>) -> (r: Enumerate<Iter<'a, T>>)
+    ensures en_window(s@, 0, s@.len() as int, en_rem(r)),
+{
+    s.iter().enumerate()
+}
+
+#[verifier::reject_recursive_types(T)]
+//@@ item src/lib.rs struct Cells
+impl<'a, T: CellType> Cells<'a, T> {
+    pub closed spec fn rem(&self) -> Seq<(usize, &'a T)> { en_rem(self.inner) }
+    pub closed spec fn cw(&self) -> int { self.width as int }
+    /// while cells are left the width is not 0 (the division in `next` is defined); established by Range::cells, kept by next / next_back
+    pub closed spec fn winv(&self) -> bool { en_rem(self.inner).len() > 0 ==> self.width > 0 }
+    /// the iterator still has to yield cells f..b (row-major positions) of `rg`
+    pub open spec fn is_window(&self, rg: Range<T>, f: int, b: int) -> bool {
+        en_window(rg.buf(), f, b, self.rem()) && self.cw() == rg.sw()
+    }
+}
+impl<T: CellType> Range<T> {
+    /// row-major position k is the cell at relative (k / w, k % w)
+    proof fn lemma_cell_pos(&self, k: int)
+        requires self.wf(), 0 <= k < self.buf().len(),
+        ensures
+            self.sw() > 0, 0 <= k / self.sw() < self.sh(), 0 <= k % self.sw() < self.sw(),
+            self.has(self.lo().0 + k / self.sw(), self.lo().1 + k % self.sw()),
+            self.buf()[k] == self.at(self.lo().0 + k / self.sw(), self.lo().1 + k % self.sw()),
+    {
+        let w = self.w(); let h = self.h();
+        vstd::arithmetic::div_mod::lemma_fundamental_div_mod(k, w);
+        vstd::arithmetic::div_mod::lemma_mod_bound(k, w);
+        vstd::arithmetic::div_mod::lemma_div_pos_is_pos(k, w);
+        let q = k / w; let r = k % w;
+        assert(k == w * q + r);
+        assert(w * q == q * w) by (nonlinear_arith);
+        if q >= h { assert(q * w >= h * w) by (nonlinear_arith) requires q >= h, w > 0; }
+    }
+}
+/// hypothesis on the cell type for used_cells: `==` / `!=` are structural equality
+pub open spec fn lawful_eq<T: CellType>() -> bool {
+    T::obeys_eq_spec() && (forall|a: T, b: T| #[trigger] a.eq_spec(&b) <==> (a == b))
+}
+// TRUSTED: the bodies are the real expressions `<enumerate>.by_ref().find(p)` / `.rfind(p)`, moved into functions because Verus has no
+// `assume_specification` for provided trait methods. Iterator::find doc: "Searches for an element of an iterator that satisfies a
+// predicate ... returns the first true ... find() is short-circuiting; the iterator can be resumed after the first match";
+// DoubleEndedIterator::rfind: "Searches for an element of an iterator from the back that satisfies a predicate".
+#[verifier::external_body]
+fn verif_enum_find<'a, T, P: FnMut(&(usize, &'a T)) -> bool>(it: &mut Enumerate<Iter<'a, T>>, p: P) -> (r: Option<(usize, &'a T)>)
+    requires forall|x: (usize, &'a T)| call_requires(p, (&x,)),
+    ensures
+        match r {
+            Some(x) => exists|k: int| 0 <= k < en_rem(*old(it)).len() && x == #[trigger] en_rem(*old(it))[k] && call_ensures(p, (&x,), true)
+                && (forall|j: int| 0 <= j < k ==> call_ensures(p, (&#[trigger] en_rem(*old(it))[j],), false))
+                && en_rem(*final(it)) == en_rem(*old(it)).skip(k + 1),
+            None => (forall|j: int| 0 <= j < en_rem(*old(it)).len() ==> call_ensures(p, (&#[trigger] en_rem(*old(it))[j],), false))
+                && en_rem(*final(it)).len() == 0,
+        },
+{
+    it.by_ref().find(p)
+}
+#[verifier::external_body]
+fn verif_enum_rfind<'a, T, P: FnMut(&(usize, &'a T)) -> bool>(it: &mut Enumerate<Iter<'a, T>>, p: P) -> (r: Option<(usize, &'a T)>)
+    requires forall|x: (usize, &'a T)| call_requires(p, (&x,)),
+    ensures
+        match r {
+            Some(x) => exists|k: int| 0 <= k < en_rem(*old(it)).len() && x == #[trigger] en_rem(*old(it))[k] && call_ensures(p, (&x,), true)
+                && (forall|j: int| k < j < en_rem(*old(it)).len() ==> call_ensures(p, (&#[trigger] en_rem(*old(it))[j],), false))
+                && en_rem(*final(it)) == en_rem(*old(it)).take(k),
+            None => (forall|j: int| 0 <= j < en_rem(*old(it)).len() ==> call_ensures(p, (&#[trigger] en_rem(*old(it))[j],), false))
+                && en_rem(*final(it)).len() == 0,
+        },
+{
+    it.by_ref().rfind(p)
+}
+#[verifier::reject_recursive_types(T)]
+//@@ item src/lib.rs struct UsedCells
+impl<'a, T: CellType> UsedCells<'a, T> {
+    pub closed spec fn rem(&self) -> Seq<(usize, &'a T)> { en_rem(self.inner) }
+    pub closed spec fn cw(&self) -> int { self.width as int }
+    pub closed spec fn winv(&self) -> bool { en_rem(self.inner).len() > 0 ==> self.width > 0 }
+    /// the iterator still has to look at cells f..b (row-major positions) of `rg`
+    pub open spec fn is_window(&self, rg: Range<T>, f: int, b: int) -> bool {
+        en_window(rg.buf(), f, b, self.rem()) && self.cw() == rg.sw()
+    }
+}
+proof fn lemma_en_window_sub<'a, T>(s: Seq<T>, f: int, b: int, rem: Seq<(usize, &'a T)>, k: int)
+    requires en_window(s, f, b, rem), 0 <= k < b - f,
+    ensures en_window(s, f + k + 1, b, rem.skip(k + 1)), en_window(s, f, f + k, rem.take(k)),
+        en_window(s, f + 1, b, rem.skip(1)), en_window(s, f, b - 1, rem.drop_last()),
+{
+    assert forall|i: int| 0 <= i < b - (f + k + 1) implies (#[trigger] rem.skip(k + 1)[i]).0 == f + k + 1 + i && *rem.skip(k + 1)[i].1 == s[f + k + 1 + i] by {
+        assert(rem.skip(k + 1)[i] == rem[k + 1 + i]);
+    }
+    assert forall|i: int| 0 <= i < b - (f + 1) implies (#[trigger] rem.skip(1)[i]).0 == f + 1 + i && *rem.skip(1)[i].1 == s[f + 1 + i] by {
+        assert(rem.skip(1)[i] == rem[1 + i]);
+    }
+}
+
+// ---- the iterator impls. Verus forbids `requires` on methods of a trait impl, and vstd's Iterator has no `size_hint`: the impls are
+// checked (verbatim, headers included) against stand-ins of std's Iterator / DoubleEndedIterator (signatures copied) that carry a
+// spec-only representation invariant `inv` (established by Range::rows / cells / used_cells, preserved by every method).
+pub mod iters {
+    use super::*;
+    // std's traits stay in scope (under other names) for the method calls on Chunks / Enumerate
+    use std::iter::Iterator as StdIterator;
+    use std::iter::DoubleEndedIterator as StdDoubleEndedIterator;
+    pub trait Iterator {
+        type Item;
+        spec fn inv(&self) -> bool;
+        fn next(&mut self) -> Option<Self::Item>
+            requires old(self).inv(),
+            ensures final(self).inv();
+    }
+    pub trait DoubleEndedIterator: Iterator {
+        fn next_back(&mut self) -> Option<Self::Item>
+            requires old(self).inv(),
+            ensures final(self).inv();
+    }
+//@@ impl src/lib.rs "Iterator for Rows<'a,T>"
+//@@ item src/lib.rs impl_type "Iterator for Rows<'a,T>::type Item"
+    open spec fn inv(&self) -> bool { true }
+//@@ fn src/lib.rs "Iterator for Rows<'a,T>::next" props=C05 ret=r
+//@@ sig
+    ensures
+        //# C05.rows_are_the_width_chunks
+        forall|rg: Range<T>, f: int, b: int| rg.wf() && 0 <= f <= b <= rg.sh() && #[trigger] old(self).is_window(rg, f, b) ==>
+            (if f < b { r is Some && r.unwrap()@ == rg.row(f) && final(self).is_window(rg, f + 1, b) } else { r is None && final(self).is_window(rg, f, b) }),
+//@@ body
+        proof {
+            assert forall|rg: Range<T>, f: int, b: int| rg.wf() && 0 <= f <= b <= rg.sh() && #[trigger] old(self).is_window(rg, f, b) implies
+                old(self).rem().len() == (b - f) * rg.sw() && (f < b ==> rg.sw() > 0 && old(self).rem().len() >= rg.sw()
+                    && imin(old(self).cw(), old(self).rem().len() as int) == rg.sw()
+                    && rg.row(f) == old(self).rem().take(rg.sw()) && old(self).rem().skip(rg.sw()) == rg.buf().subrange((f + 1) * rg.sw(), b * rg.sw()))
+                    && (f == b ==> old(self).rem().len() == 0)
+            by { rg.lemma_rows_window(f, b); }
+        }
+//@@ end
+//@@ endimpl
+//@@ impl src/lib.rs "DoubleEndedIterator for Rows<'a,T>"
+//@@ fn src/lib.rs "DoubleEndedIterator for Rows<'a,T>::next_back" props=C05 ret=r
+//@@ sig
+    ensures
+        //# C05.rows_back_are_the_width_chunks
+        forall|rg: Range<T>, f: int, b: int| rg.wf() && 0 <= f <= b <= rg.sh() && #[trigger] old(self).is_window(rg, f, b) ==>
+            (if f < b { r is Some && r.unwrap()@ == rg.row(b - 1) && final(self).is_window(rg, f, b - 1) } else { r is None && final(self).is_window(rg, f, b) }),
+//@@ body
+        proof {
+            assert forall|rg: Range<T>, f: int, b: int| rg.wf() && 0 <= f <= b <= rg.sh() && #[trigger] old(self).is_window(rg, f, b) implies
+                old(self).rem().len() == (b - f) * rg.sw() && (f < b ==> rg.sw() > 0 && old(self).rem().len() >= rg.sw()
+                    && last_chunk_len(old(self).rem().len() as int, old(self).cw()) == rg.sw()
+                    && rg.row(b - 1) == old(self).rem().skip(old(self).rem().len() - rg.sw())
+                    && old(self).rem().take(old(self).rem().len() - rg.sw()) == rg.buf().subrange(f * rg.sw(), (b - 1) * rg.sw()))
+                    && (f == b ==> old(self).rem().len() == 0)
+            by { rg.lemma_rows_window(f, b); }
+        }
+//@@ end
+//@@ endimpl
+
+//@@ impl src/lib.rs "Iterator for Cells<'a,T>"
+//@@ item src/lib.rs impl_type "Iterator for Cells<'a,T>::type Item"
+    open spec fn inv(&self) -> bool { self.winv() }
+//@@ fn src/lib.rs "Iterator for Cells<'a,T>::next" props=C05 ret=r
+//@@ sig
+    ensures
+        //# C05.cells_row_major
+        forall|rg: Range<T>, f: int, b: int| rg.wf() && 0 <= f <= b <= rg.buf().len() && #[trigger] old(self).is_window(rg, f, b) ==>
+            (if f < b {
+                r is Some && r.unwrap().0 == f / rg.sw() && r.unwrap().1 == f % rg.sw()
+                    && *r.unwrap().2 == rg.at(rg.lo().0 + f / rg.sw(), rg.lo().1 + f % rg.sw())
+                    && final(self).is_window(rg, f + 1, b)
+            } else { r is None && final(self).is_window(rg, f, b) }),
+//@@ closure 0
+    -> (res: (usize, usize, &'a T))
+        requires self.width > 0
+        ensures res.0 == __c0_0.0 / self.width && res.1 == __c0_0.0 % self.width && res.2 == __c0_0.1
+//@@ body
+        proof {
+            assert forall|rg: Range<T>, f: int, b: int| rg.wf() && 0 <= f <= b <= rg.buf().len() && #[trigger] old(self).is_window(rg, f, b) && f < b implies
+                rg.sw() > 0 && rg.buf()[f] == rg.at(rg.lo().0 + f / rg.sw(), rg.lo().1 + f % rg.sw())
+                && en_window(rg.buf(), f + 1, b, old(self).rem().skip(1))
+            by { rg.lemma_cell_pos(f); }
+        }
+//@@ end
+//@@ endimpl
+
+//@@ impl src/lib.rs "DoubleEndedIterator for Cells<'a,T>"
+//@@ fn src/lib.rs "DoubleEndedIterator for Cells<'a,T>::next_back" props=C05 ret=r
+//@@ sig
+    ensures
+        //# C05.cells_row_major_from_the_back
+        forall|rg: Range<T>, f: int, b: int| rg.wf() && 0 <= f <= b <= rg.buf().len() && #[trigger] old(self).is_window(rg, f, b) ==>
+            (if f < b {
+                r is Some && r.unwrap().0 == (b - 1) / rg.sw() && r.unwrap().1 == (b - 1) % rg.sw()
+                    && *r.unwrap().2 == rg.at(rg.lo().0 + (b - 1) / rg.sw(), rg.lo().1 + (b - 1) % rg.sw())
+                    && final(self).is_window(rg, f, b - 1)
+            } else { r is None && final(self).is_window(rg, f, b) }),
+//@@ closure 0
+    -> (res: (usize, usize, &'a T))
+        requires self.width > 0
+        ensures res.0 == __c0_0.0 / self.width && res.1 == __c0_0.0 % self.width && res.2 == __c0_0.1
+//@@ body
+        proof {
+            assert forall|rg: Range<T>, f: int, b: int| rg.wf() && 0 <= f <= b <= rg.buf().len() && #[trigger] old(self).is_window(rg, f, b) && f < b implies
+                rg.sw() > 0 && rg.buf()[b - 1] == rg.at(rg.lo().0 + (b - 1) / rg.sw(), rg.lo().1 + (b - 1) % rg.sw())
+                && en_window(rg.buf(), f, b - 1, old(self).rem().drop_last())
+            by { rg.lemma_cell_pos(b - 1); lemma_en_window_sub(rg.buf(), f, b, old(self).rem(), 0); }
+        }
+//@@ end
+//@@ endimpl
+//@@ impl src/lib.rs "Iterator for UsedCells<'a,T>"
+//@@ item src/lib.rs impl_type "Iterator for UsedCells<'a,T>::type Item"
+    open spec fn inv(&self) -> bool { self.winv() }
+//@@ fn src/lib.rs "Iterator for UsedCells<'a,T>::next" props=C05 ret=r
+//@@ sig
+    ensures
+        //# C05.used_cells_are_the_non_default_cells_in_order
+        lawful::<T>() && lawful_eq::<T>() ==> forall|rg: Range<T>, f: int, b: int| rg.wf() && 0 <= f <= b <= rg.buf().len() && #[trigger] old(self).is_window(rg, f, b) ==>
+            (match r {
+                // the next used cell is the first non-default cell at or after position f ...
+                Some(x) => exists|k: int| f <= k < b && #[trigger] rg.buf()[k] != dflt::<T>() && (forall|j: int| f <= j < k ==> #[trigger] rg.buf()[j] == dflt::<T>())
+                    && x.0 == k / rg.sw() && x.1 == k % rg.sw() && *x.2 == rg.at(rg.lo().0 + k / rg.sw(), rg.lo().1 + k % rg.sw())
+                    && final(self).is_window(rg, k + 1, b),
+                // ... and there is none when all cells left are default
+                None => (forall|j: int| f <= j < b ==> #[trigger] rg.buf()[j] == dflt::<T>()) && final(self).is_window(rg, b, b),
+            }),
+//@@ replace /self\s*\.inner\s*\.by_ref\(\)\s*\.(r?find)\(/ Verus cannot attach a specification to the provided trait methods Iterator::find and DoubleEndedIterator::rfind; the call `self.inner.by_ref().find(p)` is routed, with the method name and the closure text kept, through the trusted wrappers verif_enum_find and verif_enum_rfind whose bodies are that very expression
+verif_enum_\g<1>(&mut self.inner, 
+//@@ replace /\|&\(_, v\)\| ([^\n]+)\)(?=\s*\.map)/ Verus does not support reference patterns (`&(_, v)`) in closure parameters; the parameter is bound by name and destructured by a `let`, the closure body text is kept verbatim
+|__p: &(usize, &'a T)| -> (res: bool)
+        ensures lawful::<T>() && lawful_eq::<T>() ==> res == (*(*__p).1 != dflt::<T>())
+    { let v = (*__p).1; \g<1> })
+//@@ closure 1
+    -> (res: (usize, usize, &'a T))
+        requires self.width > 0
+        ensures res.0 == __c1_0.0 / self.width && res.1 == __c1_0.0 % self.width && res.2 == __c1_0.1
+//@@ body
+        let ghost rem0 = self.rem();
+        proof {
+            assert forall|rg: Range<T>, f: int, b: int| rg.wf() && 0 <= f <= b <= rg.buf().len() && #[trigger] old(self).is_window(rg, f, b) implies
+                (forall|k: int| 0 <= k < b - f ==> (#[trigger] rem0[k]).0 == f + k && *rem0[k].1 == rg.buf()[f + k] && rg.sw() > 0
+                    && rg.buf()[f + k] == rg.at(rg.lo().0 + (f + k) / rg.sw(), rg.lo().1 + (f + k) % rg.sw())
+                    && en_window(rg.buf(), f + k + 1, b, rem0.skip(k + 1)) && en_window(rg.buf(), f, f + k, rem0.take(k)))
+                && (forall|j: int| f <= j < b ==> #[trigger] rg.buf()[j] == *rem0[j - f].1)
+                && (rem0.len() == 0 ==> f == b)
+            by {
+                assert forall|k: int| 0 <= k < b - f implies (#[trigger] rem0[k]).0 == f + k && *rem0[k].1 == rg.buf()[f + k] && rg.sw() > 0
+                    && rg.buf()[f + k] == rg.at(rg.lo().0 + (f + k) / rg.sw(), rg.lo().1 + (f + k) % rg.sw())
+                    && en_window(rg.buf(), f + k + 1, b, rem0.skip(k + 1)) && en_window(rg.buf(), f, f + k, rem0.take(k))
+                by { rg.lemma_cell_pos(f + k); lemma_en_window_sub(rg.buf(), f, b, rem0, k); }
+            }
+        }
+//@@ end
+//@@ endimpl
+//@@ impl src/lib.rs "DoubleEndedIterator for UsedCells<'a,T>"
+//@@ fn src/lib.rs "DoubleEndedIterator for UsedCells<'a,T>::next_back" props=C05 ret=r
+//@@ sig
+    ensures
+        //# C05.used_cells_from_the_back_are_the_non_default_cells_in_reverse_order
+        lawful::<T>() && lawful_eq::<T>() ==> forall|rg: Range<T>, f: int, b: int| rg.wf() && 0 <= f <= b <= rg.buf().len() && #[trigger] old(self).is_window(rg, f, b) ==>
+            (match r {
+                // the next used cell from the back is the last non-default cell before position b ...
+                Some(x) => exists|k: int| f <= k < b && #[trigger] rg.buf()[k] != dflt::<T>() && (forall|j: int| k < j < b ==> #[trigger] rg.buf()[j] == dflt::<T>())
+                    && x.0 == k / rg.sw() && x.1 == k % rg.sw() && *x.2 == rg.at(rg.lo().0 + k / rg.sw(), rg.lo().1 + k % rg.sw())
+                    && final(self).is_window(rg, f, k),
+                // ... and there is none when all cells left are default
+                None => (forall|j: int| f <= j < b ==> #[trigger] rg.buf()[j] == dflt::<T>()) && final(self).is_window(rg, f, f),
+            }),
+//@@ replace /self\s*\.inner\s*\.by_ref\(\)\s*\.(r?find)\(/ Verus cannot attach a specification to the provided trait methods Iterator::find and DoubleEndedIterator::rfind; the call `self.inner.by_ref().find(p)` is routed, with the method name and the closure text kept, through the trusted wrappers verif_enum_find and verif_enum_rfind whose bodies are that very expression
+verif_enum_\g<1>(&mut self.inner, 
+//@@ replace /\|&\(_, v\)\| ([^\n]+)\)(?=\s*\.map)/ Verus does not support reference patterns (`&(_, v)`) in closure parameters; the parameter is bound by name and destructured by a `let`, the closure body text is kept verbatim
+|__p: &(usize, &'a T)| -> (res: bool)
+        ensures lawful::<T>() && lawful_eq::<T>() ==> res == (*(*__p).1 != dflt::<T>())
+    { let v = (*__p).1; \g<1> })
+//@@ closure 1
+    -> (res: (usize, usize, &'a T))
+        requires self.width > 0
+        ensures res.0 == __c1_0.0 / self.width && res.1 == __c1_0.0 % self.width && res.2 == __c1_0.1
+//@@ body
+        let ghost rem0 = self.rem();
+        proof {
+            assert forall|rg: Range<T>, f: int, b: int| rg.wf() && 0 <= f <= b <= rg.buf().len() && #[trigger] old(self).is_window(rg, f, b) implies
+                (forall|k: int| 0 <= k < b - f ==> (#[trigger] rem0[k]).0 == f + k && *rem0[k].1 == rg.buf()[f + k] && rg.sw() > 0
+                    && rg.buf()[f + k] == rg.at(rg.lo().0 + (f + k) / rg.sw(), rg.lo().1 + (f + k) % rg.sw())
+                    && en_window(rg.buf(), f + k + 1, b, rem0.skip(k + 1)) && en_window(rg.buf(), f, f + k, rem0.take(k)))
+                && (forall|j: int| f <= j < b ==> #[trigger] rg.buf()[j] == *rem0[j - f].1)
+                && (rem0.len() == 0 ==> f == b)
+            by {
+                assert forall|k: int| 0 <= k < b - f implies (#[trigger] rem0[k]).0 == f + k && *rem0[k].1 == rg.buf()[f + k] && rg.sw() > 0
+                    && rg.buf()[f + k] == rg.at(rg.lo().0 + (f + k) / rg.sw(), rg.lo().1 + (f + k) % rg.sw())
+                    && en_window(rg.buf(), f + k + 1, b, rem0.skip(k + 1)) && en_window(rg.buf(), f, f + k, rem0.take(k))
+                by { rg.lemma_cell_pos(f + k); lemma_en_window_sub(rg.buf(), f, b, rem0, k); }
+            }
+        }
+//@@ end
+//@@ endimpl
+    // the contracts compose: a 2 x 3 range read from both ends (preconditions `inv` / windows are established by the constructors)
+    fn witness_iterators<T: CellType>(r: &Range<T>)
+        requires r.wf(), r.sh() == 2, r.sw() == 3,
+    {
+        proof { r.lemma_rows_window(0, 2); assert(r.buf().len() == 6) by { assert(r.buf().subrange(0, 2 * 3 as int).len() == 6); } }
+        let mut it = r.rows();
+        let a = it.next();
+        assert(a is Some && a.unwrap()@ == r.row(0));
+        let b = it.next_back();
+        assert(b is Some && b.unwrap()@ == r.row(1));
+        let c = it.next();
+        assert(c is None);
+        let mut cs = r.cells();
+        let x = cs.next();
+        assert(x is Some && x.unwrap().0 == 0 && x.unwrap().1 == 0 && *x.unwrap().2 == r.at(r.lo().0 + 0, r.lo().1 + 0));
+        let y = cs.next_back();
+        assert(y is Some && y.unwrap().0 == 1 && y.unwrap().1 == 2) by { assert(5int / 3int == 1 && 5int % 3int == 2); }
+    }
+} // mod iters
 
 // ---- witnesses: every `requires` above is satisfiable, and the contracts compose along a history of operations
 // (the calls below are checked against the preconditions; the asserts are consequences of the postconditions alone)
